@@ -221,7 +221,63 @@ def r02d(ctx):
     ctx.check(ok, "R02d", f"{q}.exists", "exists is defined as 'the solution list is non-empty'", u(r[0].value) if r else "", key_detail="layered exists")
 
 
+def r02e(ctx):
+    """azimuthal pairing: wherever a horizontal position is built from a radial distance, x pairs with cos(phi) and the source's x,
+    y with sin(phi) and the source's y (necessary for covariance under rotations about the vertical axis)."""
+    repo = ctx.repo
+    ctx.rule("R02e", "azimuth pairing: x = from_point[0] + r*cos(phi), y = from_point[1] + r*sin(phi) in every coordinate construction; directions use (sin t cos phi, sin t sin phi, .)",
+             expected=6, kind="N")
+    sites = [("pyrex.ray_tracing.UniformRayTracePath", "_points", [("points[1:, 0]", 0, "cos"), ("points[1:, 1]", 1, "sin")]),
+             ("pyrex.ray_tracing.BasicRayTracePath", "coordinates", [("xs", 0, "cos"), ("ys", 1, "sin")]),
+             ("pyrex.ray_tracing.SpecializedRayTracePath", "coordinates", [("xs", 0, "cos"), ("ys", 1, "sin")]),
+             ("pyrex.custom.layered_ice.ray_tracing.LayeredRayTracer", "solutions", [("points[1:, 0]", 0, "cos"), ("points[1:, 1]", 1, "sin")])]
+    for q, m, targets in sites:
+        fn = repo.member(q, m)
+        for tgt, comp, trig in targets:
+            st = [s_ for s_ in ast.walk(fn) if isinstance(s_, ast.Assign) and u(s_.targets[0]) == tgt]
+            ok = len(st) == 1
+            detail = u(st[0].value) if st else "not assigned"
+            if ok:
+                v = st[0].value
+                names = {x.id for x in ast.walk(v) if isinstance(x, ast.Name)} - {"np", "self"}
+                rname = sorted(names)[0] if len(names) == 1 else None
+                ok = rname is not None and NF().nf(v).equals(NF().nf(parse_expr(f"self.from_point[{comp}] + {rname}*np.{trig}(self.phi)")))
+            ctx.check(ok, "R02e", f"{q}.{m}", f"`{tgt}` = from_point[{comp}] + r*{trig}(phi)", detail, key_detail=f"azimuth pairing {tgt}", loc=ctx.loc(repo.cls(q).module, st[0]) if st else None)
+    for q in ("pyrex.ray_tracing.BasicRayTracePath",):
+        for m in ("emitted_direction", "received_direction"):
+            fn = repo.member(q, m)
+            for r in returns(fn):
+                v = r.value
+                ok = is_call(v, func="np.array") and isinstance(v.args[0], (ast.List, ast.Tuple)) and len(v.args[0].elts) == 3
+                if ok:
+                    x, y, _ = v.args[0].elts
+                    ok = u(x).endswith("* np.cos(self.phi)") and u(y).endswith("* np.sin(self.phi)") and u(x)[:-len("np.cos(self.phi)")] == u(y)[:-len("np.sin(self.phi)")]
+                ctx.check(ok, "R02e", f"{q}.{m}", "horizontal components are h*cos(phi), h*sin(phi) with one common h", u(v)[:100], key_detail=f"direction azimuth {m}")
+    for q in ("pyrex.ray_tracing.BasicRayTracePath", "pyrex.ray_tracing.UniformRayTracePath", "pyrex.ray_tracing.UniformRayTracer",
+              "pyrex.custom.layered_ice.ray_tracing.LayeredRayTracePath", "pyrex.custom.layered_ice.ray_tracing.LayeredRayTracer"):
+        fn = repo.member(q, "phi")
+        r = returns(fn)
+        env = local_env(fn)
+        ok = len(r) == 1 and NF(env).nf(r[0].value.args[0]).equals(NF().nf(parse_expr("self.to_point[1] - self.from_point[1]"))) if r and is_call(r[0].value, func="np.arctan2") else False
+        ok = ok and NF(env).nf(r[0].value.args[1]).equals(NF().nf(parse_expr("self.to_point[0] - self.from_point[0]")))
+        ctx.check(ok, "R02e", f"{q}.phi", "phi = arctan2(dy, dx) of the endpoint separation", u(r[0].value) if r else "", key_detail="phi definition")
+
+
+def r02f(ctx):
+    """direction-of-travel symmetry of the pieced z-integral (= R01f of C01): integrating downward through z_uniform is the mirror of upward"""
+    from . import c01
+    ctx.rule("R02f", "the analytic z-integral is pieced across z_uniform consistently for upward and downward integration (= R01f), so a path and its swapped twin "
+             "report the same length and time", expected=5, kind="N")
+    sub = type(ctx)(ctx.repo, ctx.prop, ctx.tier)
+    c01.r01f(sub)
+    for o in sub.obs:
+        o.rule = "R02f"
+        ctx.obs.append(o)
+
+
 def run(ctx):
+    ctx.guard(r02e)
+    ctx.guard(r02f)
     ctx.guard(r02a)
     ctx.guard(r02b)
     ctx.guard(r02c)
@@ -230,6 +286,11 @@ def run(ctx):
 
 SELFTEST = {
     "faults": [
+        {"name": "y of the bounce points offset by the source's x", "file": "pyrex/ray_tracing.py", "old": "            points[1:, 1] = self.from_point[1] + rs * np.sin(self.phi)",
+         "new": "            points[1:, 1] = self.from_point[0] + rs * np.sin(self.phi)", "rule": "R02e"},
+        {"name": "direction of travel ignored when crossing z_uniform", "file": "pyrex/ray_tracing.py",
+         "old": "                    if z0<z1:\n                        return int_z1 - int_z0 + int_diff\n                    else:\n                        return int_z1 - int_z0 - int_diff",
+         "new": "                    return int_z1 - int_z0 + int_diff", "rule": "R02f"},
         {"name": "reflection points relative to the origin (the defect repaired in UniformRayTracePath._points)", "file": "pyrex/ray_tracing.py",
          "old": "            points[1:, 0] = self.from_point[0] + rs * np.cos(self.phi)", "new": "            points[1:, 0] = rs * np.cos(self.phi)", "rule": "R02a"},
         {"name": "z0 = from_point depth in the tracer", "file": "pyrex/ray_tracing.py", "old": "        return min([self.from_point[2], self.to_point[2]])", "new": "        return self.from_point[2]",
